@@ -75,3 +75,68 @@ def rand_vector(rng, maxlen=24):
             out.append(rand_instr(rng, labels))
         last = out[-1]
     return out
+
+
+# ---------------------------------------------------------------- knowledge probes and vector-level execution
+
+ALL_MID = LOADS + STORES + ALU + IMPL + ["INC", "DEC"]
+PROBE_OPS = ["v", "w", "#3", "#0", "arr,X", "arr,Y", "arr+1,X", "(p),Y", "cctmp"]
+
+
+def probe_vector(rng):
+    """LDr op ; <0-3 instructions that may or may not invalidate what is known> ; LDr op ; observer.
+    Systematically exercises the redundant-load rules of the optimiser."""
+    reg = rng.choice("AXY")
+    ld, st = "LD" + reg, "ST" + reg
+    ops = [o for o in PROBE_OPS if not (reg == "X" and (",X" in o or o.startswith("("))) and not (reg == "Y" and (",Y" in o or o.startswith("(")))]
+    op = rng.choice(ops)
+    out = [I(ld, op, nb_of(ld, op), 2)]
+    for _ in range(rng.choice([0, 1, 1, 1, 2, 3])):
+        mn = rng.choice(ALL_MID)
+        if mn in IMPL:
+            out.append(I(mn, "", 1, 2))
+        else:
+            cands = [o for o in PROBE_OPS if not (mn in STORES + ["INC", "DEC"] and o.startswith("#"))
+                     and not (mn in ("LDX", "STX", "CPX") and ",X" in o) and not (mn in ("LDY", "STY", "CPY") and ",Y" in o)
+                     and not (mn in ("LDX", "LDY", "STX", "STY", "CPX", "CPY", "INC", "DEC") and o.startswith("("))
+                     and not (mn in ("INC", "DEC") and ",Y" in o) and not (mn == "STX" and ",Y" in o and False)]
+            o = op if (rng.random() < 0.4 and op in cands) else rng.choice(cands)
+            out.append(I(mn, o, nb_of(mn, o), 2))
+    out.append(I(ld, op, nb_of(ld, op), 2))
+    # observers: make the register (and its flags) matter
+    k = rng.random()
+    if k < 0.4:
+        out += [I(st, "res", 2, 3), I("LDA", "#0", 2, 2)]
+    elif k < 0.7:
+        out += [I("CMP" if reg == "A" else "CP" + reg, "#3", 2, 2), I("BNE", ".skip", 2, 2, 3, True), I("INC", "res", 2, 5), L(".skip")]
+    else:
+        out += [I("BEQ", ".skip", 2, 2, 3, True), I("INC", "res", 2, 5), L(".skip"), I(st, "res2", 2, 3)]
+    return out
+
+
+VEC_ENV = {"cctmp": 0x80, "v": 0x90, "w": 0x91, "p": 0x92, "res": 0x94, "res2": 0x95, "arr": 0xA0, "tab": 0xB0}
+
+
+def run_vector(model, pid, lines, rs_seed, nstates=6):
+    """execute a line vector as function f on the 6502 model from a few states; returns list of observables or None"""
+    import random as _r
+    model.req("drop " + pid)
+    model.req("env %s %s" % (pid, " ".join("%s=%d" % (hx(k), v) for k, v in VEC_ENV.items())))
+    a = model.req("fn %s %s %s" % (pid, hx("f"), toks_of_lines(list(lines) + [I("RTS", "", 1, 6)])))
+    model.req("fn %s %s %s" % (pid, hx("func"), toks_of_lines([I("RTS", "", 1, 6)])))
+    if a != "ok":
+        return None
+    rs = _r.Random(rs_seed)
+    outs = []
+    for _ in range(nstates):
+        mem = {0x92: 0xC0, 0x93: 0x00}
+        for ad in list(range(0x90, 0x92)) + list(range(0x94, 0x96)) + list(range(0xA0, 0xD0)):
+            mem[ad] = rs.choice([0, 1, 3, 255, rs.randrange(256)])
+        x, y = rs.randrange(8), rs.randrange(8)
+        r = model.req("run %s %s 400 %d %d %d 0 | %s | 128:1 144:6 160:48" % (pid, hx("f"), rs.randrange(256), x, y, " ".join("%d=%d" % kv for kv in sorted(mem.items()))))
+        f = r.split(" ")
+        if f[0] != "ok" or f[1] != "done":
+            outs.append(None)
+        else:
+            outs.append((f[3], f[4], f[12]))     # X, Y, memory (A and flags are not observable after RTS)
+    return outs
